@@ -349,8 +349,20 @@ func (r *run) rogue(e Ev) {
 	}
 	r.probe("rogue-sent")
 	r.probe("rogue-" + mut)
+	if len(e.MF) > 0 {
+		rogueMF = e.MF // scenarios place the fault themselves
+	}
 	res := r.sendAsFaulty("rogue", method, req, rogueMF)
 	r.logf("rogue %s %s -> err=%v refused=%v", method, mut, res.err, refused(res))
+	if r.cfg.Observe {
+		out := "accepted"
+		if res.err != nil && res.err.Error() == "no answer" {
+			out = "no-answer"
+		} else if refused(res) {
+			out = "refused"
+		}
+		r.rogueLog = append(r.rogueLog, mut+"="+out)
+	}
 	r.trace.Str("rogue").Str(mut)
 	if res.err != nil && res.err.Error() == "no answer" {
 		r.fail("answered", r.prop+".answered", "no-answer/"+mut, "the mutated request (%s, %s) got no answer", method, mut)
@@ -790,6 +802,9 @@ func (r *run) parPatch(e Ev) {
 	r.probe("rest-patch-pair")
 	r.probe("rest-patch")
 	mf := []MongoFault{{At: 2 + g.Intn(6), Kind: []string{"stall", "slow", "stall"}[g.Intn(3)]}}
+	if e.Op == "nofault" {
+		mf = nil // scenarios: the database is not slow, the second patch just waits for the first
+	}
 	r.pump(f, g, mf, false, "")
 	synctest.Wait()
 	for i := range names {
